@@ -5,6 +5,8 @@ import (
 	"fmt"
 	"time"
 
+	bpmn "github.com/olive-io/bpmn/v2"
+	"github.com/olive-io/bpmn/schema"
 	"github.com/olive-io/bpmn/v2/pkg/id"
 	"github.com/olive-io/bpmn/v2/pkg/tracing"
 
@@ -27,6 +29,9 @@ type genPlan struct {
 type IdCase struct {
 	Gens   []genPlan `json:"gens"`
 	Engine *ProcCase `json:"engine,omitempty"` // (a) an engine run with the real default generator
+	Seq    int       `json:"seq,omitempty"`    // (c) this many instances one after the other in one engine, each with a context of its own that is cancelled before the next is created
+	GapMs  int       `json:"gapMs,omitempty"`  // (c) simulated time between a cancellation and the next creation (0: the same instant)
+	defs   *schema.Definitions
 	env    *Env
 	ids    [][]string // per drawing goroutine (written by that goroutine only)
 	owner  []string
@@ -35,6 +40,26 @@ type IdCase struct {
 func (c *IdCase) Env() *Env { return c.env }
 func (c *IdCase) Prepare() error {
 	c.env = &Env{}
+	if c.Seq > 0 {
+		d := &Definitions{}
+		g := &Graph{ID: "P1", Executable: true}
+		d.Procs = []*Graph{g}
+		g.addNode(&Node{ID: "Start", Kind: "start"})
+		g.addNode(&Node{ID: "F", Kind: "and"})
+		g.connect(d, "Start", "F", nil, -1)
+		for i := 1; i <= 3; i++ {
+			t, e := fmt.Sprintf("T%d", i), fmt.Sprintf("E%d", i)
+			g.addNode(&Node{ID: t, Kind: "task"})
+			g.addNode(&Node{ID: e, Kind: "end"})
+			g.connect(d, "F", t, nil, -1)
+			g.connect(d, t, e, nil, -1)
+		}
+		defs, err := parseDefs(d.XML())
+		if err != nil {
+			return err
+		}
+		c.defs = defs
+	}
 	if c.Engine != nil {
 		if err := c.Engine.Prepare(); err != nil {
 			return err
@@ -62,6 +87,10 @@ func (c *IdCase) Main() {
 	L := &c.env.L
 	ctx, cancel := context.WithCancel(context.Background())
 	defer cancel()
+	if c.Seq > 0 {
+		c.mainSeq(ctx)
+		return
+	}
 	tracer := tracing.NewTracer(ctx)
 	done := make(chan struct{}, 256)
 	n := 0
@@ -125,8 +154,72 @@ func (c *IdCase) Main() {
 	L.Add("end", "", "", 0)
 }
 
+// mainSeq: instances that follow each other closely in one engine, each with the engine's own default generator and
+// a context of its own, cancelled before the next instance is created. Whatever a generator leaves behind when its
+// context ends (a partition, a sequence position) must not make the next one repeat its ids.
+func (c *IdCase) mainSeq(ctx context.Context) {
+	L := &c.env.L
+	engine := bpmn.NewEngine(bpmn.WithEngineContext(ctx))
+	for r := 0; r < c.Seq; r++ {
+		pctx, pcancel := context.WithCancel(ctx)
+		proc, err := engine.NewProcess(c.defs, bpmn.WithContext(pctx))
+		if err != nil {
+			L.Add("fatal", "NewProcess: "+err.Error(), "", 0)
+			pcancel()
+			return
+		}
+		slot := c.slot(fmt.Sprintf("instance #%d of the engine", r+1))
+		c.put(slot, proc.Id().String())
+		traces := proc.Tracer().SubscribeChannel(make(chan tracing.ITrace, 64))
+		if err := proc.StartAll(pctx); err != nil {
+			L.Add("fatal", "StartAll: "+err.Error(), "", 0)
+		}
+		tasks := 0
+	read:
+		for tasks < 3 {
+			select {
+			case tr, ok := <-traces:
+				if !ok {
+					break read
+				}
+				switch t := tracing.Unwrap(tr).(type) {
+				case bpmn.NewFlowTrace:
+					c.put(slot, t.FlowId.String())
+				case bpmn.TaskTrace:
+					tasks++
+				}
+			case <-time.After(watchdog):
+				L.Add("stuck", "instance did not reach its tasks", "", r)
+				break read
+			}
+		}
+		c.env.fault("instance-context-cancelled-before-the-next-is-created")
+		pcancel()
+		if c.GapMs > 0 {
+			time.Sleep(time.Duration(c.GapMs) * time.Millisecond)
+		} else {
+			for k := 0; k < 8; k++ {
+				simrt.Yield("between-instances")
+			}
+		}
+		go func() {
+			for range traces {
+			}
+		}()
+	}
+	<-time.After(time.Second)
+	L.Add("end", "", "", 0)
+}
+
 func genC20(d *Draw) Case {
 	c := &IdCase{}
+	if d.N(6) == 5 {
+		c.Seq = 2 + d.N(4)
+		if d.Bool() {
+			c.GapMs = 1 + d.N(6)
+		}
+		return c
+	}
 	if d.N(4) == 3 {
 		// (a) engine level: a forking process with the engine's real default generator
 		opts := ProgOpts{Kinds: []string{"seq", "and", "xor", "loop", "sub"}, MaxDepth: 1 + d.N(2), MaxTasks: 3 + d.N(5)}
@@ -217,8 +310,9 @@ func checkC20(cc Case, r *simrt.Result) *Outcome {
 		workers += g.Workers
 		kinds[g.Kind]++
 	}
-	o.Nontrivial = workers > 1 || len(c.Gens) > 1
+	o.Nontrivial = workers > 1 || len(c.Gens) > 1 || c.Seq > 1
 	probe(o, "several-generators", len(c.Gens) > 1)
+	probe(o, "instances-following-each-other-in-one-engine", c.Seq > 0)
 	probe(o, "two-fallback-generators-same-instant", kinds["fallback"] > 1)
 	probe(o, "snapshot-restore", c.env.FaultCounts()["snapshot-restore"] > 0)
 	probe(o, "sequence-overflow-volume", total > 65535)
